@@ -1,10 +1,11 @@
 #!/bin/sh
-# try_mutant.sh <seeded dir name> <check ids...>: apply the seeded patch to /repo, run the checks, undo it.
+# try_mutant.sh <seeded dir name> <check ids...>: apply the seeded patch to /repo, run the checks (without touching the
+# evidence files), undo it straight afterwards.
 sd=/verif/seeded/$1; shift
 git -C /repo diff --quiet || { echo "/repo not clean"; exit 2; }
 git -C /repo apply $sd/patch.diff || { echo "patch does not apply"; exit 2; }
 for c in "$@"; do
-  (cd /verif && ./check $c 2>&1 | grep -E "^==|VIOLATION|^   (src|simplicity-sys)|— " | head -12)
+  (cd /verif && VERIF_SELFTEST=1 ./check $c 2>&1 | grep -E "^== selftest|SELFTEST-VIOLATION" | cut -c1-400 | head -8)
 done
 git -C /repo checkout -- .
 git -C /repo status --short | head -3
